@@ -80,9 +80,14 @@ def body(chk):
             chk.functions.add(fn_)
             # (1b) tolerances: a multiple of DBL_EPSILON = 2^-52 inside the long double slice is a double-precision tolerance
             deps = sorted(set((f_[-60:], str(v_ * 2 ** 52)) for f_, ty_, v_ in fplog if ty_ == 'f80' and f_ and 'Ie' in f_ and v_ > 0 and (v_ * 2 ** 52).denominator == 1 and (v_ * 2 ** 52) <= 64))
-            images = [c for c in ex.nonsimple if c[3] == 'double-image' and c[0] and 'Ie' in c[0]]
+            def eps_like(v_):
+                return any((v_ * 2 ** k_).denominator == 1 and 0 < v_ * 2 ** k_ <= 64 for k_ in (52, 63))
+            images = [c for c in ex.nonsimple if c[3] in ('double-image', 'nonsimple') and c[0] and 'Ie' in c[0] and not eps_like(abs(c[2]))]
             tag = '%s<long double>:%s' % (name, cap)
             good = [p for p in paths if p['error'] is None and p['terminal'] is None]
+            errs = [str(p['error']) for p in paths if p['error'] is not None and 'out of range' not in str(p['error'])]
+            if errs:
+                chk.infra.append('%s<long double>:%s: evaluator could not be executed symbolically: %s' % (name, cap, errs[0][:200]))
             if not good:
                 continue
             res = merge_paths(good)
@@ -179,6 +184,15 @@ class Collector(object):
     def classify(self, ob):
         pass
 
+    def solve_all(self, *a, **k):
+        pass
+
+    def save_replay(self, *a, **k):
+        return None
+
+    def report_violation(self, *a, **k):
+        pass
+
 
 def definedness(chk, w):
     import c02
@@ -186,10 +200,27 @@ def definedness(chk, w):
     col = Collector(chk)
     c02.flow_family(col, w, c02.FAMILY, None, None, scalars=('double',))
     c02.flow_family(col, w, {k: v for k, v in c03.FAMILY.items() if k.startswith('navierstokes')}, c03.viscous_of, None, scalars=('double',))
+    # the other families, through their own builders (validation against the real library is switched off for the collector)
+    import c04
+    import c06
+    import c05_fans
+    import pde as _pde
+    saved = _pde.validate_terms
+    _pde.validate_terms = lambda *a, **k: None
+    try:
+        c04.body(col)
+        c06.body(col)
+        c05_fans.build(col, w, [])
+    except Exception as e:
+        chk.notes.append('definedness: a family builder failed under the collector: %r' % (e,))
+    finally:
+        _pde.validate_terms = saved
+    # t=0 sections are instances of the three-argument evaluators (their admissibility is stated on the transient fields)
+    col.items = [it for it in col.items if '<long double>' not in it[0] and '(x,y)=' not in it[0]]
     seen = set()
     n = 0
     for name, lib, A_ in col.items:
-        if ':eval_q' not in name and ':exact' not in name:
+        if 'eval_q' not in name and 'exact' not in name:
             continue
         enc = smt.Encoder()
         enc.enc(lib)
